@@ -103,7 +103,10 @@ def harnesses(tier):
 CLAIM = dict(
     text='CBMC proves for every control-free string within the bound that the escape helpers used for text put no raw < & " into the output, '
          'and that the real link/image exporters keep arbitrary URLs and titles inside their attribute (same number of quotes and < as for a '
-         'harmless value, every & a reference): the "cannot break out" half of well-formedness, for all strings.',
+         'harmless value, every & a reference): the "cannot break out" half of well-formedness, for all strings.  Strings from the document that the '
+         'HTML writer (= EPUB main.xhtml), the OpenDocument link/image exporters and the EPUB package/navigation documents place into attributes or '
+         'element content are tracked by identity and proved to reach the output only through those escapers; the block-level cases of both writers '
+         'and the EPUB members are proved balanced by a streaming recogniser; the raw-source gate opens only for the writer\'s own format family.',
     note='trusted: CBMC; ds_model formatter; strings <= 2-6 bytes; whole-document element balance is outside',
-    technique='CBMC bounded model checking of XML escape helpers and attribute-building exporters with a differential (harmless-value) oracle',
+    technique='CBMC bounded model checking of XML escape helpers and attribute-building exporters with a differential (harmless-value) oracle; taint-by-identity and balanced-markup recognisers over the real writer cases',
 )
